@@ -94,27 +94,30 @@ def classify(c):
             k = mc.split("/")[0]
             STATS["rejected_in_spec"][k] = STATS["rejected_in_spec"].get(k, 0) + 1
         return "ok"
-    if model.startswith("MIRROR-DIFF") or model in ("unparsable", "bad-request"):
+    mirror_diff = model.startswith("MIRROR-DIFF")
+    if mirror_diff:
+        model = model[len("MIRROR-DIFF "):]
+    if model in ("unparsable", "bad-request"):
         return "broken"
     if spec == "unallocated":
         k = mc.split("/")[0] + ("/" + mc.split("/")[1] if mc.startswith("sweep") else "")
         STATS["outside_spec"][k] = STATS["outside_spec"].get(k, 0) + 1
-        return "ok" if post == model else "broken"
+        return "ok" if post == model and not mirror_diff else "broken"
     if spec.startswith("unpredictable"):
         STATS["unpredictable"] += 1
-        return "ok" if post == model else "broken"
+        return "ok" if post == model and not mirror_diff else "broken"
     if spec.startswith("fault:"):
         if spec == "fault:alignment":
             STATS["fault_alignment"] += 1
-            return "ok" if post == model else "broken"
+            return "ok" if post == model and not mirror_diff else "broken"
         # IL has no exceptions and falcon's memory maps a page on a store: a data abort has no counterpart; counted
         STATS["fault_translation"] += 1
-        return "ok"
+        return "broken" if mirror_diff else "ok"
     STATS["compared"] += 1
     if post != spec:
-        return "violation"
-    if post != model:
-        return "broken"
+        return "violation"        # a concrete (word, state) on which falcon disagrees with the architecture
+    if post != model or mirror_diff:
+        return "broken"           # IL model / mirror of the lifter no longer describes falcon
     return "ok"
 
 
@@ -122,8 +125,6 @@ def signature(c):
     post = _post(c.impl)
     if post is None:
         return f"C03/{c.cls}/{c.impl.split(' ')[0][:80]}"
-    if c.model.startswith("MIRROR-DIFF"):
-        return f"C03/{c.cls}/mirror"
     if c.spec.startswith("next="):
         d = _diff(post, c.spec)
         if d:
@@ -131,7 +132,10 @@ def signature(c):
             if d == "c" and "/addsub_" in c.cls and "_op1_S1_" in c.cls:
                 return f"C03/{arch}/subs/c"          # one defect, one signature (all three operand forms, both widths)
             return f"C03/{c.cls}/{d}"
-    d = _diff(post, c.model) if c.model.startswith("next=") else "model"
+    if c.model.startswith("MIRROR-DIFF"):
+        return f"C03/{c.cls}/mirror"
+    m = c.model[len("MIRROR-DIFF "):] if c.model.startswith("MIRROR-DIFF ") else c.model
+    d = _diff(post, m) if m.startswith("next=") else "model"
     return f"C03/{c.cls}/model-{d}"
 
 
@@ -141,6 +145,6 @@ def nontrivial(c):
 
 def extra_coverage():
     return {"c03_counts": STATS,
-            "unproved_classes": ["ldst_regoff", "ld_literal", "ldst_pair", "ldst_ordered", "ldst_rcpc_unscaled (stlur)",
-                                 "SIMD&FP loads/stores (V=1)", "prefetch"],
+            "unproved_classes": ["SIMD&FP transfer registers (V=1) of ldr/str/ldur/stur (immediate, register offset, literal) and ldp/stp/ldnp/stnp",
+                                 "outside the statement, reachable through shared mnemonics: AdvSIMD/SVE add/sub/mov, SVE prefetches"],
             "proved_classes": "see lean/FalconProofs/Props/C03.lean header (A)"}
